@@ -186,6 +186,53 @@ def r2(chk, prog, rule='R2'):
     chk.check(dep, rule, f.name, 'a second prefix match is reported as ambiguous (exception)', f.loc(),
               'no throw in findArg depends on a prefix match')
     # (d) first prefix match is remembered only if none was found before (no silent overwrite by order)
+    # (e) 'enabled' is what the user configured: every key container of a handler is constructed with
+    #     abbreviations allowed exactly when the flag hfNoAbbr is absent, and the container stores that parameter
+    en = prog.enums.get('celma::prog_args::Handler::HandleFlags')
+    if en is None:
+        raise AnalysisBroken('enum Handler::HandleFlags not found')
+    flags = {e['name']: e['val'] for e in en['enumerators']}
+    if 'hfNoAbbr' not in flags:
+        raise AnalysisBroken('Handler::hfNoAbbr not found')
+    ctor = [g for g in prog.functions if g.classq == 'celma::prog_args::detail::ArgumentContainer' and g.d.get('ctor')
+            and g.params and not g.d.get('defaulted')]
+    chk.require(ctor, 'ArgumentContainer constructor not found')
+    ac = ctor[0]
+    pidx = None
+    for i in ac.inits:
+        if i.get('name') == 'mAbbrAllowed' and isinstance(i.get('init'), dict):
+            for k, p_ in enumerate(ac.params):
+                if mentions_var(i['init'], p_['name']) and strip_all_casts(i['init']).get('k') in ('DeclRefExpr',):
+                    pidx = k
+    chk.check(pidx is not None, rule, ac.name, 'the container stores the abbreviation switch it is constructed with',
+              ac.loc())
+    from ..boolshape import Interp, NeedAtom
+    n_cont = 0
+    for g in prog.functions:
+        if g.classq != 'celma::prog_args::Handler' or not g.d.get('ctor') or pidx is None:
+            continue
+        for i in g.inits:
+            init = i.get('init')
+            if not isinstance(init, dict) or not (init.get('callee') or '').endswith('ArgumentContainer::ArgumentContainer'):
+                continue
+            args = children(init)
+            if len(args) <= pidx:
+                continue
+            n_cont += 1
+            fparam = [p_['name'] for p_ in g.params if p_['t'].replace('const ', '').strip() == 'int']
+            bad = None
+            for fs in (0, flags['hfNoAbbr'], flags['hfNoAbbr'] | 1, 1, ~flags['hfNoAbbr'] & 0xffff):
+                it = Interp(g, {nm: fs for nm in fparam})
+                try:
+                    v = it.ev(args[pidx])
+                except (NeedAtom, Unsupported) as e_:
+                    raise AnalysisBroken('abbreviation switch of %s in %s not interpretable: %s' % (i['name'], g.key, e_))
+                if bool(v) != ((fs & flags['hfNoAbbr']) == 0):
+                    bad = (fs, v)
+                    break
+            chk.check(bad is None, rule, g.name, 'container %s allows abbreviations exactly when hfNoAbbr is not set'
+                      % i['name'], g.loc(init), '' if bad is None else 'for flags %#x the switch is %s' % bad)
+    chk.require(n_cont >= 4, 'key containers constructed by Handler constructors: %d' % n_cont)
     return f
 
 
